@@ -452,8 +452,8 @@ CMP_SCOPE = {
 	'C02': [r'ln/channelmanager\.rs$'],
 	'C03': [r'ln/outbound_payment\.rs$'],
 	'C04': [r'ln/outbound_payment\.rs$', r'ln/inbound_payment\.rs$'],
-	'C06': [r'chain/package\.rs$'],
-	'C07': [r'chain/channelmonitor\.rs$', r'chain/package\.rs$'],
+	'C06': [r'chain/package\.rs$', r'chain/channelmonitor\.rs$', r'chain/onchaintx\.rs$', r'ln/chan_utils\.rs$'],
+	'C07': [r'chain/channelmonitor\.rs$', r'chain/package\.rs$', r'chain/onchaintx\.rs$', r'ln/chan_utils\.rs$'],
 	'C10': [r'ln/channelmanager\.rs$'],
 	'C11': [r'chain/channelmonitor\.rs$', r'chain/mod\.rs$'],
 	'C13': [r'util/ser\.rs$'],
